@@ -252,6 +252,9 @@ typedef struct ep
     int rxpos;          /* bytes of peer->tx delivered in order to this endpoint's application */
     unsigned char seen[512][12]; /* DTLS: sender key fp || epoch || sequence of every datagram record already delivered here */
     int seenn;
+    unsigned char ivs[256][16]; /* explicit IV blocks / last cipher blocks of CBC records this endpoint emitted */
+    int ivn;
+    int ivrep;          /* number of CBC records whose explicit IV repeated an earlier IV or an earlier last block */
     int cbmode;         /* 0 none, 1 strict (return alert), 2 permissive (return 0) */
     int cbcalls;
     int cbalert;
@@ -260,7 +263,7 @@ typedef struct ep
     sb_t dlv;           /* deliveries during the current command */
     sb_t alin;          /* alerts received during the current command */
     sb_t outrecs;       /* record types flushed during the current command */
-    struct { int type, msg, wsec; uint32_t kfp; unsigned char seq[8]; int alvl, adesc; } sealq[512]; /* tags of records sealed but not yet flushed */
+    struct { int type, msg, wsec; uint32_t kfp; unsigned char seq[8]; int alvl, adesc, bs; } sealq[512]; /* tags of records sealed but not yet flushed */
     int sealn;
     int tagmis;
     int lastrc;
@@ -390,14 +393,14 @@ static void verif_hook(int ev, void *ssl, long a, long b, void *p, long n)
     switch (ev)
     {
     case MXV_HS_GATE:
-        sb_printf(&e->sub, "%s{\"k\":\"G\",\"t\":\"%s\",\"x\":0,\"n\":0}", e->sub.n ? "," : "", hs_name((int) a));
+        sb_printf(&e->sub, "%s{\"k\":\"G\",\"t\":\"%s\",\"x\":0,\"n\":0,\"q\":0,\"qh\":0,\"w\":0,\"bs\":0}", e->sub.n ? "," : "", hs_name((int) a));
         break;
     case MXV_HS_ACCEPT:
-        sb_printf(&e->sub, "%s{\"k\":\"A\",\"t\":\"%s\",\"x\":%d,\"n\":0}", e->sub.n ? "," : "", hs_name((int) a),
+        sb_printf(&e->sub, "%s{\"k\":\"A\",\"t\":\"%s\",\"x\":%d,\"n\":0,\"q\":0,\"qh\":0,\"w\":0,\"bs\":0}", e->sub.n ? "," : "", hs_name((int) a),
             (b < 0 && b != SSL_PROCESS_DATA && b != SSL_ENCODE_RESPONSE && b != SSL_SEND_RESPONSE && b != SSL_NO_TLS_1_3) ? -1 : 0);
         break;
     case MXV_REC_OK:
-        sb_printf(&e->sub, "%s{\"k\":\"R\",\"t\":\"%d\",\"x\":%d,\"n\":%ld}", e->sub.n ? "," : "", (int) a, (int) b, n);
+        sb_printf(&e->sub, "%s{\"k\":\"R\",\"t\":\"%d\",\"x\":%d,\"n\":%ld,\"q\":0,\"qh\":0,\"w\":0,\"bs\":0}", e->sub.n ? "," : "", (int) a, (int) b, n);
         break;
     case MXV_SEAL:
     {
@@ -445,9 +448,19 @@ static void verif_hook(int ev, void *ssl, long a, long b, void *p, long n)
                 e->sealq[e->sealn].type = type; e->sealq[e->sealn].msg = msg; e->sealq[e->sealn].wsec = wsec;
                 e->sealq[e->sealn].kfp = wkey_fp(s); memcpy(e->sealq[e->sealn].seq, s->sec.seq, 8);
                 e->sealq[e->sealn].alvl = type == 21 ? (int) lvl : -1; e->sealq[e->sealn].adesc = type == 21 ? (int) b : -1;
+                e->sealq[e->sealn].bs = (wsec && !USING_TLS_1_3(s) && !(s->flags & SSL_FLAGS_AEAD_W)) ? s->enBlockSize : 0;
                 e->sealn++;
             }
-            sb_printf(&e->sub, "%s{\"k\":\"S\",\"t\":\"%d\",\"x\":%d,\"n\":%ld}", e->sub.n ? "," : "", type, (int) b, type == 21 ? lvl : n);
+            {
+                /* sequence number the record is bound to: TLS: sec.seq; DTLS: epoch(16) || rsn(48) */
+                unsigned long long sq = 0;
+                int k3;
+                if (ACTV_VER(s, v_dtls_any)) { sq = ((unsigned long long) s->epoch[0] << 8) | s->epoch[1]; for (k3 = 0; k3 < 6; k3++) sq = (sq << 8) | s->rsn[k3]; }
+                else { for (k3 = 0; k3 < 8; k3++) sq = (sq << 8) | s->sec.seq[k3]; }
+                sb_printf(&e->sub, "%s{\"k\":\"S\",\"t\":\"%d\",\"x\":%d,\"n\":%ld,\"q\":%d,\"qh\":%d,\"w\":%d,\"kf\":\"%08x\",\"bs\":%d}", e->sub.n ? "," : "",
+                    type, (int) b, type == 21 ? lvl : n, (int) (sq & 0x3fffffff), (int) ((sq >> 30) & 0x3fffffff), wsec, wkey_fp(s),
+                    (wsec && !USING_TLS_1_3(s) && !(s->flags & SSL_FLAGS_AEAD_W)) ? s->enBlockSize : 0);
+            }
         }
         if (g_tamper) g_tamper(e, type, (int) b, p, n);
         break;
@@ -455,6 +468,26 @@ static void verif_hook(int ev, void *ssl, long a, long b, void *p, long n)
     default:
         break;
     }
+}
+
+/* called from wrap_aead.c */
+void mxd_note_seal(const char *kind, uint32_t keyfp, const unsigned char nonce[12], uint32_t ptdigest, long len)
+{
+    ep_t *e = g_cur_cb_ep;
+    int i;
+    char nh[32];
+    (void) kind;
+    if (!e || !e->used) return;
+    for (i = 0; i < 12; i++) snprintf(nh + 2 * i, 3, "%02x", nonce[i]);
+    sb_printf(&e->sub, "%s{\"k\":\"N\",\"t\":\"%08x:%s\",\"x\":%d,\"n\":%ld,\"q\":0,\"qh\":0,\"w\":0,\"bs\":0}", e->sub.n ? "," : "",
+        keyfp, nh, (int) (ptdigest & 0x3fffffff), len);
+}
+
+void mxd_note_prng(long n)
+{
+    ep_t *e = g_cur_cb_ep;
+    if (!e || !e->used) return;
+    sb_printf(&e->sub, "%s{\"k\":\"E\",\"t\":\"prng\",\"x\":0,\"n\":%ld,\"q\":0,\"qh\":0,\"w\":0,\"bs\":0}", e->sub.n ? "," : "", n);
 }
 
 /******************************************************************************/
@@ -468,7 +501,7 @@ static int32_t cert_cb(ssl_t *ssl, psX509Cert_t *cert, int32_t alert)
     if (!e) return alert;
     e->cbcalls++;
     e->cbalert = alert;
-    sb_printf(&e->sub, "%s{\"k\":\"CB\",\"t\":\"%d\",\"x\":%d,\"n\":0}", e->sub.n ? "," : "", alert, e->cbmode);
+    sb_printf(&e->sub, "%s{\"k\":\"CB\",\"t\":\"%d\",\"x\":%d,\"n\":0,\"q\":0,\"qh\":0,\"w\":0,\"bs\":0}", e->sub.n ? "," : "", alert, e->cbmode);
     if (e->cbmode == 2) return 0;            /* permissive: accept this failure */
     return alert;                            /* strict: keep the library's verdict */
 }
@@ -508,6 +541,7 @@ static void emit_state(sb_t *o, ep_t *e)
 #ifdef USE_STATELESS_SESSION_TICKETS
         if (!e->server && ssl->sid) tick = ssl->sid->sessionTicketState;
 #endif
+        sb_printf(o, ",\"ivrep\":%d", e->ivrep);
         sb_printf(o, ",\"kx\":\"%s\",\"suite\":%d,\"cauth\":%d,\"tick\":%d,\"psk13\":%d,\"early\":%d,\"tagmis\":%d",
             (t >= 0 && t <= 10) ? kxn[t] : "other", ssl->cipher ? ssl->cipher->ident : 0,
             !!(ssl->flags & SSL_FLAGS_CLIENT_AUTH), tick, ssl->sec.tls13UsingPsk ? 1 : 0,
@@ -590,6 +624,14 @@ static int ep_flush_ex(ep_t *e, int maxbytes, int timeout)
                         r.itype = e->sealq[0].type; r.imsg = e->sealq[0].msg; r.wsec = e->sealq[0].wsec;
                         r.kfp = e->sealq[0].kfp; memcpy(r.seq, e->sealq[0].seq, 8); r.alvl = e->sealq[0].alvl; r.adesc = e->sealq[0].adesc;
                         r.alvl = e->sealq[0].alvl; r.adesc = e->sealq[0].adesc;
+                        if (e->sealq[0].bs == 16 && rl >= hl + 32)
+                        {
+                            /* CBC with explicit IV: the IV block must be new, also w.r.t. earlier last blocks */
+                            int k4, rep = 0;
+                            for (k4 = 0; k4 < e->ivn; k4++) if (memcmp(e->ivs[k4], buf + off + hl, 16) == 0) rep = 1;
+                            if (rep) e->ivrep++;
+                            if (e->ivn < 255) { memcpy(e->ivs[e->ivn++], buf + off + hl, 16); memcpy(e->ivs[e->ivn++], buf + off + rl - 16, 16); }
+                        }
                         memmove(&e->sealq[0], &e->sealq[1], sizeof(e->sealq[0]) * (e->sealn - 1));
                         e->sealn--;
                     }
@@ -1172,6 +1214,7 @@ static void do_deliver(ep_t *src, int count, int chunk)
     unsigned char *buf;
     int total = 0, i, ids0 = -1, origin = 0, itype = -1, imsg = -1, wsec = 0, kmatch = 0, seqm = 0, auth = 0, alvl = -1, adesc = -1;
     unsigned char seenkey[12]; int have_seenkey = 0;
+    int rs0 = dst && dst->ssl ? !!(dst->ssl->flags & SSL_FLAGS_READ_SECURE) : 0;
     if (!dst) die("endpoint %s has no peer", src->name);
     if (count > src->qn) count = src->qn;
     if (count <= 0) return;
@@ -1237,8 +1280,8 @@ static void do_deliver(ep_t *src, int count, int chunk)
     }
     if (dst->autoflush) ep_flush(dst, 0);
     emit_begin(&g_out, "deliver", dst);
-    sb_printf(&g_out, ",\"from\":\"%s\",\"nrec\":%d,\"bytes\":%d,\"rtype\":%d,\"rid\":%d,\"origin\":%d,\"itype\":%d,\"imsg\":\"%s\",\"wsec\":%d,\"kmatch\":%d,\"seqm\":%d,\"auth\":%d,\"alvl\":%d,\"adesc\":%d",
-        src->name, count, total, total > 0 ? buf[0] : -1, ids0, origin, itype, imsg >= 0 ? hs_name(imsg) : "-", wsec, kmatch, seqm, auth, alvl, adesc);
+    sb_printf(&g_out, ",\"from\":\"%s\",\"nrec\":%d,\"bytes\":%d,\"rtype\":%d,\"rid\":%d,\"origin\":%d,\"itype\":%d,\"imsg\":\"%s\",\"wsec\":%d,\"kmatch\":%d,\"seqm\":%d,\"auth\":%d,\"alvl\":%d,\"adesc\":%d,\"rs0\":%d",
+        src->name, count, total, total > 0 ? buf[0] : -1, ids0, origin, itype, imsg >= 0 ? hs_name(imsg) : "-", wsec, kmatch, seqm, auth, alvl, adesc, rs0);
     emit_state(&g_out, dst);
     emit_end(&g_out);
     free(buf);
@@ -1337,6 +1380,7 @@ static void cmd_del(char **tok)
     if (e->peer && e->peer->peer == e) e->peer->peer = NULL;
     emit_begin(&g_out, "del", e);
     emit_end(&g_out);
+    if (g_cur_cb_ep == e) g_cur_cb_ep = NULL;
     memset(e, 0, sizeof(*e));
 }
 
